@@ -569,6 +569,9 @@ func (w *World) opRestart() {
 	w.x.out.probe("restart")
 	if pre != nil {
 		for _, r := range w.allRepoNames() {
+			if w.tainted[r] {
+				continue // nothing is claimed about this repository any more (unhealthy storage, or content removed behind a tag)
+			}
 			post := w.observe(r)
 			var diffs []string
 			mr := w.m.repo(r)
